@@ -1,0 +1,6 @@
+//go:build verif
+
+package internal
+
+// VerifParseHexUint exposes parseHexUint (chunk-size parser) for property C04.
+func VerifParseHexUint(v []byte) (uint64, error) { return parseHexUint(v) }
